@@ -3,6 +3,7 @@
 import glob, json, os
 here = os.path.dirname(os.path.abspath(__file__))
 rows = []
+notes = json.load(open(os.path.join(here, "seeded", "notes.json"))) if os.path.exists(os.path.join(here, "seeded", "notes.json")) else {}
 for f in sorted(glob.glob(os.path.join(here, "seeded", "*", "meta.json"))):
     m = json.load(open(f))
     res = m.get("results", {})
@@ -12,7 +13,7 @@ for f in sorted(glob.glob(os.path.join(here, "seeded", "*", "meta.json"))):
             caught_by += ["%s: %s" % (k, v.split(":")[0].replace("[violation] ", "")) for v in r["violations"][:2]]
     demo = "clean rc=%s, patched rc=%s" % (m.get("demo_clean_rc"), m.get("demo_patched_rc"))
     rows.append("| %s | %s | %s | %s | %s | %s |" % (m["name"], m["property"], (m.get("needs") or "")[:260].replace("|", "/").replace("\n", " "),
-                                                demo, m.get("repo_tests", "n/a"), ("**caught** — " + "; ".join(caught_by)) if m.get("caught") else ("**MISSED**" if "caught" in m else m.get("error", "?"))))
+                                                demo, m.get("repo_tests", "n/a"), (("**caught** — " + "; ".join(caught_by)) if m.get("caught") else ("**MISSED**" if "caught" in m else m.get("error", "?"))) + ((" — NOTE: " + notes[m["name"]]) if m["name"] in notes else "")))
 with open(os.path.join(here, "seeded", "SUMMARY.md"), "w") as f:
     f.write("# Independently seeded changes and which check catches them\n\n"
             "| name | property | what it needs to manifest (author's notes, truncated) | demonstration | repository tests with the patch | our check |\n|---|---|---|---|---|---|\n")
